@@ -27,6 +27,7 @@ import (
 	"github.com/google/go-tdx-guest/rtmr"
 	"github.com/google/go-tdx-guest/validate"
 	"github.com/google/go-tdx-guest/verify"
+	"github.com/google/go-tdx-guest/verify/trust"
 	"google.golang.org/protobuf/proto"
 	"google.golang.org/protobuf/reflect/protoreflect"
 )
@@ -713,6 +714,38 @@ func c10(x *mon.Ctx) {
 	})
 	x.Require("hostile-body", 0, 100, 100)
 	x.Require("hostile-header", 0, 60, 60)
+
+	// 3a'. the same hostile responses — and the honest ones — fetched by the library's own production getter
+	//      (trust.SimpleHTTPSGetter over real TLS + net/http from an in-process server): Content-Length, chunked, gzip and
+	//      piecewise framing, HTTP/1.1 and HTTP/2, scripted error statuses with and without Retry-After
+	{
+		n := 0
+		for _, h2 := range []bool{false, true} {
+			pcs := mon.StartHTTPPCS(h2)
+			step := x.Pick(9, 1)
+			for i := 0; i < len(rcases); i += step {
+				c := rcases[i]
+				pcs.Serve(c.Resp)
+				pcs.Mode = []string{"content-length", "chunked", "gzip", "pieces", "pieces-chunked"}[(i/step)%5]
+				if (i/step)%7 == 3 {
+					for u := range c.Resp {
+						pcs.Script[u] = []string{[]string{"429:1", "503:", "502", "301", "204", "304:0"}[(i/step/7)%6]}
+					}
+				}
+				o, _ := mon.Options(c)
+				o.Getter = &trust.SimpleHTTPSGetter{}
+				m := mon.MessageFor("built", c.Quote)
+				p := guardHang("verify.TdxQuote(production getter)", func() { _ = verify.TdxQuote(m, o) })
+				if p != "" {
+					x.Violation("hostile-response-over-real-http", fmt.Sprintf("%s/%s/h2=%v/%s", c.Class, c.Param, h2, pcs.Mode), p, "none", nil)
+				}
+				x.Note("hostile-response-over-real-http", fmt.Sprintf("%s/%s/h2=%v/%s", c.Class, c.Param, h2, pcs.Mode), false, p != "", p == "")
+				n++
+			}
+			pcs.Close()
+		}
+		x.Require("hostile-response-over-real-http", 0, n, n)
+	}
 
 	// 3b. the reporting API on a *different* (structurally arbitrary) message than the one the options verified,
 	//     crossed with signed collateral whose level lists have odd shapes
